@@ -180,9 +180,15 @@ def execute_large(case):
 def large_plan(tier):
     cases = []
     for tc, L, P in (("IU2", 640, 1000), ("C*8", 320, 600)):
-        for rpc in (None, 64, 1000):
+        for rpc in (None, 64, 1000, 1, 7):
             for fs in ("mcfs", "local") if tier == "quick" else harness.FS_KINDS:
                 cases.append({"type": tc, "L": L, "P": P, "rpc": rpc, "fs": fs})
+    # one chunk of > 8 MiB (very long lines), and in the thorough tier > 32 MiB
+    cases.append({"type": "IU2", "L": 120, "P": 50000, "rpc": None, "fs": "mcfs"})
+    cases.append({"type": "C*8", "L": 40, "P": 40000, "rpc": None, "fs": "mcfs"})
+    if tier == "thorough":
+        cases.append({"type": "IU2", "L": 400, "P": 50000, "rpc": None, "fs": "mcfs"})
+        cases.append({"type": "IU2", "L": 400, "P": 50000, "rpc": 100, "fs": "local"})
     return cases
 
 
@@ -192,7 +198,8 @@ def run(res, tier, seed):
         "local path,file://,memory://} with position-coded samples, plus every (real,imag) pair of 13 float32 bit"
         " patterns / every uint16 pattern rotated over all pixel positions; a case is one product of up to 8 images;"
         " every case loads pixels, so all are non-trivial; distinct = distinct case tuples; plus realistically sized images (640x1000 IU2,"
-        " 320x600 C*8: > 1 MiB per chunk at the default rpc) x rpc {default, 64, 1000} with full / single-line / window / strided reads"
+        " 320x600 C*8: > 1 MiB per chunk at the default rpc) x rpc {default, 64, 1000, 1, 7}, and 120x50000 IU2 / 40x40000 C*8 (one chunk of 12 MiB; 40 MiB in the thorough tier) with"
+        " full / single-line / window / strided reads"
     )
     res.assumptions = [
         "signalling-NaN bit patterns are excluded (copy semantics are CPU/NumPy properties)",
